@@ -240,6 +240,31 @@ def run(ctx):
     if len(jobs) and ncol == 0:
         ctx.cap("deadline before the hash-collision part")
     ctx.set("hash_collision_commands", ncol)
+    # ---- disks that are configured but empty (never saved in the content file, mapped afresh at every start) next to recorded ones, and a
+    # new disk entering the configuration: every subset of the three disks empty at the first sync x every place of the new disk in the
+    # list x every disk receiving the next file.  Positions handed out at run time may never collide with recorded ones
+    import itertools
+    jobs = []
+    for lv in (1, 2):
+        cfg = Config(levels=lv, ndisks=3)
+        for k in range(0, 3):
+            for empty in itertools.combinations(cfg.disknames, k):
+                base = [("write", d, "f" + d, 1024 * (1 + i), 0) for i, d in enumerate(cfg.disknames) if d not in empty] + [("cmd", "sync")]
+                for at in range(4):
+                    for target in list(cfg.disknames) + ["dn"]:
+                        jobs.append((cfg, base + [("adddisk", "dn", at), ("write", target, "late", 1500, 0), ("cmd", "sync"),
+                                                  ("write", target, "late2", 700, 0), ("cmd", "sync"), ("cmd", "check")], "map", ctx.seed))
+    nmap = 0
+    for j, res in par.pmap(collision_job, jobs, deadline=ctx.deadline):
+        cfg, hist = j[:2]
+        nmap += res["ncmd"]
+        tot_trans += res["ncmd"]
+        ctx.nontrivial(("disk-mapping", cfg.short(), repr(hist)))
+        for v, done in res["viols"]:
+            v["kind"] = v["kind"].replace("hash-collision-", "disk-mapping-")
+            ctx.violation("C06/%s" % v["kind"], "%s in %s (empty disks and a disk added) after %s" % (v["kind"], cfg.short(), v["where"]),
+                          dict(cfg=cfg.describe(), history=done, violation=v))
+    ctx.set("disk_mapping_commands", nmap)
     ctx.set("states", tot_states)
     ctx.set("transitions", tot_trans)
     ctx.set("evaluations", tot_trans)
